@@ -235,7 +235,14 @@ def r97(ctx, wr):
     d = [s for s in iter_child_stmts(f.body) if isinstance(s, ast.Assign) and norm(s.targets[0]) == 'partition_values_in_new']
     ok = len(d) == 1
     t = norm(d[0].value) if d else ''
-    ok = ok and 'data.loc[:, defined_partitions]' in t and ".astype(str).agg('/'.join, axis=1)" in t
+    # the key frame (possibly through a local) selects the partition columns in the dataset's order and joins with '/'
+    kdef = [s for s in iter_child_stmts(f.body) if isinstance(s, ast.Assign) and norm(s.targets[0]) == 'keys']
+    chain = t + ' ' + ' '.join(norm(k.value) for k in kdef)
+    ok = ok and 'data.loc[:, defined_partitions]' in chain and ".agg('/'.join, axis=1)" in chain
+    # values spelled as the writer spells directory names
+    ctx.ob('R9.7', 'writer.overwrite:new-partition-keys-spelled-like-the-directory-names', 'path_string' in chain,
+           'directory names come from path_string (ISO format for timestamps); keys rendered any other way (astype(str)) '
+           'never match a datetime partition: %s' % chain[:160], wr.loc(d[0]) if d else wr.loc(f))
     ctx.ob('R9.7', 'writer.overwrite:new-partition-keys-built-in-partition-column-order', ok,
            'the key of the new data must list the values in the order of the dataset\'s partition columns (the order of the '
            'directory levels it is compared with): %s' % t[:120], wr.loc(d[0]) if d else wr.loc(f))
